@@ -42,6 +42,17 @@ var (
 	CodeImmutableProvisionedByConfig = conduiterr.Register("orchestrator.immutable_provisioned_by_config", codes.FailedPrecondition)
 )
 
+// isLive reports whether the lifecycle service is working with the pipeline's
+// connectors and processors, so that they must not be changed: the pipeline is
+// running, or it is recovering, i.e. waiting to be restarted (or being
+// restarted right now, the status only turns to running once the new nodes
+// were started). lifecycle.Service.Stop admits the same two statuses, so such a
+// pipeline can always be stopped first.
+func isLive(pl *pipeline.Instance) bool {
+	status := pl.GetStatus()
+	return status == pipeline.StatusRunning || status == pipeline.StatusRecovering
+}
+
 // pipelineRunningErr wraps pipeline.ErrPipelineRunning with the
 // pipeline.CodePipelineRunning code and a suggestion. msg is the
 // boundary-level, human-readable message (Wrap replaces, not concatenates,
